@@ -26,13 +26,29 @@ type World struct {
 }
 
 type WriteSet struct {
+	FreshOnly map[string]bool // variables written only inside objects allocated by the code itself
 	Vars   map[string]Sort
 	All    bool
 	Why    string // why All
 	Yields bool   // contains an interference point (lock, wait, channel operation)
 }
 
-func (w *WriteSet) add(name string, s Sort) { w.Vars[name] = s }
+func (w *WriteSet) add(name string, s Sort) {
+	w.Vars[name] = s
+	delete(w.FreshOnly, name)
+}
+
+// addFresh records a write that only touches an object allocated by the analysed code.
+func (w *WriteSet) addFresh(name string, s Sort) {
+	if _, ok := w.Vars[name]; ok {
+		return
+	}
+	w.Vars[name] = s
+	if w.FreshOnly == nil {
+		w.FreshOnly = map[string]bool{}
+	}
+	w.FreshOnly[name] = true
+}
 func (w *WriteSet) merge(o *WriteSet) {
 	if o.All && !w.All {
 		w.All = true
@@ -42,7 +58,11 @@ func (w *WriteSet) merge(o *WriteSet) {
 		w.Yields = true
 	}
 	for k, v := range o.Vars {
-		w.Vars[k] = v
+		if o.FreshOnly[k] {
+			w.addFresh(k, v)
+		} else {
+			w.add(k, v)
+		}
 	}
 }
 
@@ -689,11 +709,13 @@ func (g *Gen) enterLoop(li *loopInfo, b *ssa.BasicBlock, h *Heap, reach string) 
 	}
 	// havoc
 	ws := &WriteSet{Vars: map[string]Sort{}}
+	freshScope = li.body
 	for blk := range li.body {
 		for _, in := range blk.Instrs {
 			g.w.instrWrites(in, ws, g)
 		}
 	}
+	freshScope = nil
 	var h2 *Heap
 	if ws.All {
 		h2 = g.havocAll(h, reach, "loop body: "+ws.Why)
@@ -708,6 +730,7 @@ func (g *Gen) enterLoop(li *loopInfo, b *ssa.BasicBlock, h *Heap, reach string) 
 		h2 = h.HavocVars(names)
 		g.vc.AssumeAt(reach, App(">=", g.model.allocNow(h2), g.model.allocNow(h)), "allocation counter is monotone")
 		g.assumeMonotone(h, h2, reach, names)
+		g.assumeFreshOnly(h, h2, reach, ws)
 	}
 	// phis are arbitrary
 	for _, in := range b.Instrs {
@@ -808,6 +831,25 @@ func (g *Gen) checkInvariant(li *loopInfo, from *ssa.BasicBlock, h *Heap, guard 
 		} else {
 			delete(g.vals, phi)
 		}
+	}
+}
+
+// assumeFreshOnly: variables that the havocked code writes only inside objects it allocated itself keep
+// the contents of every object that existed before.
+func (g *Gen) assumeFreshOnly(h, h2 *Heap, guard string, ws *WriteSet) {
+	a0 := g.model.allocNow(h)
+	var names []string
+	for n := range ws.FreshOnly {
+		names = append(names, n)
+	}
+	sort.Strings(names)
+	for _, n := range names {
+		s := ws.Vars[n]
+		if !strings.HasPrefix(string(s), "(Array Int ") {
+			continue
+		}
+		a, b := h.Get(n, s), h2.Get(n, s)
+		g.vc.AssumeAt(guard, fmt.Sprintf("(forall ((fr Int)) (! (=> (< (root fr) %s) (= (select %s fr) (select %s fr))) :pattern ((select %s fr))))", a0, b, a, b), n+": objects that existed before are untouched")
 	}
 }
 
@@ -976,9 +1018,15 @@ func (w *World) importedPkg(pkg *types.Package, name string) *types.Package {
 
 func (w *World) pkgByShort(name string) *types.Package {
 	var best *types.Package
+	score := func(path string) int {
+		if strings.HasPrefix(path, "github.com/f1bonacc1/process-compose") {
+			return len(path) - 1000
+		}
+		return len(path)
+	}
 	for path, p := range w.allPkgs {
 		if p.Name() == name || shortPkg(path) == name {
-			if best == nil || len(path) < len(best.Path()) {
+			if best == nil || score(path) < score(best.Path()) {
 				best = p
 			}
 		}
